@@ -210,6 +210,9 @@ RejectClauses(before, after, notes, reqs, f, view) ==
   ELSE Cl(\E i \in DOMAIN before : Rejected(f, before[i].p) /\ (\A a \in Anc(before[i].p) : Has(view, a) /\ At(view, a).t = "dir") /\
              ~(Has(after, before[i].p) /\ At(after, before[i].p).ino = before[i].ino /\ At(after, before[i].p).c = before[i].c
                /\ At(after, before[i].p).t = before[i].t), "C01.rejectedDestinationEntryTouched")
+       \* ... and a change of the destination that no notification accounts for
+       \cup Cl(\E i \in DOMAIN before : Rejected(f, before[i].p) /\ (\A a \in Anc(before[i].p) : Has(view, a) /\ At(view, a).t = "dir")
+                  /\ ~Has(after, before[i].p) /\ ~\E k \in DOMAIN notes : notes[k].p = before[i].p, "C05.applyEventsYieldsNewDest")
        \cup Cl(\E i \in DOMAIN after : Rejected(f, after[i].p) /\ ~Has(before, after[i].p), "C01.rejectedEntryApplied")
        \cup Cl(\E k \in DOMAIN notes : Rejected(f, notes[k].p), "C05.rejectedPathReported")
        \cup Cl(\E p \in reqs : Rejected(f, p), "C07.contentRequestSet")
